@@ -91,6 +91,7 @@ func guard(what string, w map[string]interface{}, f func()) (ok bool) {
 // everything derived from such a key (fingerprints, non-hardened children, addresses) is poisoned,
 // so callers stop the case there instead of reporting the consequences under other classes.
 func pubCheck(api string, gpub, mpub []byte, w map[string]interface{}) bool {
+	lcount("pubkey_checks")
 	if bytes.Equal(gpub, mpub) {
 		return true
 	}
@@ -99,6 +100,7 @@ func pubCheck(api string, gpub, mpub []byte, w map[string]interface{}) bool {
 		ww[k] = v
 	}
 	if len(gpub) == 33 && len(mpub) == 33 && bytes.Equal(gpub[1:], mpub[1:]) && (gpub[0] == 2 || gpub[0] == 3) {
+		lcount("pubkey_parity_hits")
 		lviol("pubkey-parity/"+api, "compressed public key has the right X but the wrong 02/03 parity prefix", ww)
 	} else {
 		lviol("pubkey-mismatch/"+api, "public key differs from k*G of the model", ww)
